@@ -69,7 +69,7 @@ def shard(ctx):
         ins = rp.fold(ie, rng, rng.choice((0.0, 0.5, 0.9)))
         nontriv = bool(ids) or '(ex ' in tb.show(pe) or '(mu ' in tb.show(pe)
         ctx.case(('ms', tb.show(pe), tb.show(ie)), nontrivial=nontriv)
-        if k % 2000 == 0:
+        if len(ids) >= 2 and tb.size(pe) >= 5 and len(ctx.samples) < 6:
             ctx.sample({'pattern': str(pat)[:160], 'instance': str(ins)[:200], 'tau': {str(i): tb.pretty(v)[:60] for i, v in tau.items()}})
         # ---- unseeded: must succeed
         try:
